@@ -4,6 +4,10 @@ import json, subprocess
 
 # id -> (technique, level text, level note, design ref)
 CHECKS = {
+ "C12": ("failure-injection monitor: one failing action per class planted at a random position of a generated template set; returned error, its (file:line) and the bytes in the writer compared with the reference evaluator",
+         "Exploration: 77 failure classes x random positions (any statement list of the executed, an included, an imported or an extended template; nesting depth 0-4; random blank lines, multi-line comments and trim markers as layout noise). Execute must return an error and not panic, the message must carry the file and 1-based line of the failing action for the classes jet detects itself, and the writer must hold exactly the output up to the failing action.",
+         "Trusts the reference evaluator for which actions run before the failure. Errors raised inside jet.Func built-ins are the recorded known finding K3.",
+         "DESIGN.md 3/C12"),
  "C09": ("reference-evaluator monitor for include/includeIfExists/exec call sites plus a probe-log oracle for exec return values (value == last return recorded in the observed call log)",
          "Exploration: generated sets with include/exec/includeIfExists sites at depth <=3 (inside range, blocks, try, other includes; static, computed and per-iteration names; with/without context; targets extending 1-2 levels) compared with the model, which inlines the target's root ancestor in a fresh scope with includer variables and blocks visible; 2500 generated exec targets per run with returns at every position, decided from the observed probe log without modelling which returns run.",
          "Trusts the reference evaluator for include semantics; for exec values only the recorded call log is trusted. Failures after a return inside the same try body are not generated (unspecified).",
